@@ -112,12 +112,29 @@ func c02Large(c *Ctx) {
 				c.Count("input:large-section-prefix")
 			}
 		}
+		// the loaders over the same large section (the root loader always; the internal one in thorough)
+		lcuts := []int{lay.dataStart[1] + sz/2, lay.secEnd[1] - 1}
+		if c.Thorough {
+			lcuts = append(lcuts, lay.dataStart[1], lay.secEnd[1])
+		}
+		for _, k := range lcuts {
+			kinds := []uint64{2}
+			if c.Thorough {
+				kinds = []uint64{1, 2}
+			}
+			for _, kind := range kinds {
+				c02xEmitLoad(c, r, kind, r.Bool(), -1, payload[:k], c02xTruncExpect(orig, lay, k), true)
+				c.Count("input:load-large-section-prefix")
+			}
+		}
 	}
 }
 
 func init() {
 	register("c02", func(c *Ctx) {
 		c02Large(c)
+		c02xBatch(c)
+		c02xEdge(c)
 		nArch := 8 * c.Scale
 		for a := 0; a < nArch; a++ {
 			r := c.R.Fork()
@@ -197,6 +214,219 @@ func init() {
 					c.Count("input:corrupt-structure")
 				}
 			}
+			if !isV2 {
+				c02xLoaderCases(c, r, payload, lay, blks, orig, false)
+			}
 		}
 	})
+}
+
+// ---- round 2: the loaders (kind "c02load") -------------------------------------------------------------
+
+// c02xTruncExpect: (ttrunc orig nonboundary nwhole) for the prefix payload[:k] of a CARv1 payload.
+func c02xTruncExpect(orig Val, lay layout, k int) Val {
+	nb := 1
+	if k == lay.hdrEnd {
+		nb = 0
+	}
+	nwhole := 0
+	for _, e := range lay.secEnd {
+		if e == k {
+			nb = 0
+		}
+		if e <= k {
+			nwhole++
+		}
+	}
+	return VL{VT("trunc"), orig, VN(uint64(nb)), VN(uint64(nwhole))}
+}
+
+func c02xEmitLoad(c *Ctx, r *RNG, kind uint64, fast bool, failAt int, f []byte, expect Val, nontrivial bool) {
+	hok, hdrs := scanTables(f)
+	in := VL{VN(kind), vbool(fast), c02xFailVal(failAt), VB(f), hok, hdrs, expect}
+	c.Emit("c02load", in, c02xRunLoadImpl(kind, fast, failAt, f, r.Bool()), nontrivial)
+}
+
+// c02xLoaderCases drives car.LoadCar and the internal carv1.LoadCar (Put path and PutMany path) over
+// the same derivations of one small CARv1 the readers get: the intact archive, every proper prefix,
+// single-byte corruptions of block data / digests, structural corruptions, and store faults.
+func c02xLoaderCases(c *Ctx, r *RNG, payload []byte, lay layout, blks []Blk, orig Val, allPos bool) {
+	nt := len(blks) > 0
+	variants := []struct {
+		kind uint64
+		fast bool
+	}{{1, false}, {1, true}, {2, false}, {2, true}}
+	// the intact archive: all four variants, without and with a store fault at every call index
+	for _, v := range variants {
+		c02xEmitLoad(c, r, v.kind, v.fast, -1, payload, c02xTruncExpect(orig, lay, len(payload)), nt)
+		c.Count("input:load-intact")
+		for failAt := 0; failAt <= len(blks); failAt++ {
+			c02xEmitLoad(c, r, v.kind, v.fast, failAt, payload, c02xTruncExpect(orig, lay, len(payload)), nt)
+			c.Count("input:load-store-fault")
+		}
+	}
+	// every proper prefix through all four variants
+	for k := 0; k < len(payload); k++ {
+		for _, v := range variants {
+			failAt := -1
+			if r.Chance(10) {
+				failAt = r.Intn(len(blks) + 1)
+			}
+			c02xEmitLoad(c, r, v.kind, v.fast, failAt, payload[:k], c02xTruncExpect(orig, lay, k), nt)
+			c.Count("input:load-prefix")
+		}
+	}
+	// single-byte corruptions inside block data / digest
+	for i := range blks {
+		for pos := lay.digStart[i]; pos < lay.secEnd[i]; pos++ {
+			if !c.Thorough && !allPos && r.Intn(3) != 0 {
+				continue
+			}
+			g := append([]byte(nil), payload...)
+			g[pos] ^= pick(r, []byte{0x01, 0x80, 0xff})
+			for _, v := range variants {
+				c02xEmitLoad(c, r, v.kind, v.fast, -1, g, VL{VT("corrupt"), orig, VN(uint64(i))}, nt)
+				c.Count("input:load-corrupt")
+			}
+		}
+	}
+	// corruptions anywhere else: only "stored blocks hash to their CIDs" applies
+	for t := 0; t < 20; t++ {
+		g := append([]byte(nil), payload...)
+		g[r.Intn(len(g))] ^= pick(r, []byte{0x01, 0x80, 0xff, 0x7f})
+		v := pick(r, variants)
+		c02xEmitLoad(c, r, v.kind, v.fast, -1, g, VL{VT("none")}, nt)
+		c.Count("input:load-corrupt-structure")
+	}
+}
+
+// c02xBatch: archives with more blocks than one PutMany batch of the fast path holds (1001), cut and
+// corrupted around the batch boundaries -- the buffered blocks must not turn a failed load into a
+// successful one, and nothing but original blocks may reach the store.
+func c02xBatch(c *Ctx) {
+	r := c.R.Fork()
+	counts := []int{1003}
+	if c.Thorough {
+		counts = append(counts, 2004)
+	}
+	for _, n := range counts {
+		var blks []Blk
+		for i := 0; i < n; i++ {
+			data := r.Bytes(1 + r.Intn(3))
+			if r.Chance(80) {
+				blks = append(blks, Blk{mkCid(1, 0x55, 0x00, -1, data), data}) // identity
+			} else {
+				blks = append(blks, Blk{mkCid(1, 0x55, 0x12, -1, data), data})
+			}
+		}
+		roots := genRoots(r, blks, false)
+		payload := refPayload(roots, blks)
+		hdrLen := len(refPayload(roots, nil))
+		lay := payloadLayout(nil, payload, blks, hdrLen)
+		orig := blksVal(blks)
+		cuts := []int{len(payload), lay.secEnd[999] + 1, lay.secEnd[1000] - 1, lay.secEnd[1000], lay.secEnd[1000] + 1, len(payload) - 1}
+		faults := []int{0, 1}
+		corrupt := []int{1000, 1001}
+		if c.Thorough {
+			cuts = append(cuts, lay.secStart[0]+1, lay.secEnd[499], lay.secEnd[999], lay.secEnd[1001], lay.secEnd[n-2]+2)
+			faults = append(faults, 2)
+			corrupt = append(corrupt, 500, n-1)
+			if n > 2002 {
+				cuts = append(cuts, lay.secEnd[2001]-1, lay.secEnd[2001], lay.secEnd[2001]+1)
+			}
+		}
+		// quick: the two loaders take turns (same code shape); thorough: both on everything
+		turn := r.Intn(2)
+		kindsFor := func() []uint64 {
+			if c.Thorough {
+				return []uint64{1, 2}
+			}
+			turn++
+			return []uint64{uint64(1 + turn%2)}
+		}
+		for _, k := range cuts {
+			for _, kind := range kindsFor() {
+				c02xEmitLoad(c, r, kind, true, -1, payload[:k], c02xTruncExpect(orig, lay, k), true)
+				c.Count("input:load-batch-prefix")
+			}
+		}
+		// the Put path once, cut where the PutMany path has flushed its first batch
+		for _, kind := range kindsFor() {
+			c02xEmitLoad(c, r, kind, false, -1, payload[:lay.secEnd[1001]-1], c02xTruncExpect(orig, lay, lay.secEnd[1001]-1), true)
+			c.Count("input:load-batch-prefix")
+		}
+		// store faults on the first batch and on the final flush
+		for _, failAt := range faults {
+			for _, kind := range kindsFor() {
+				c02xEmitLoad(c, r, kind, true, failAt, payload, c02xTruncExpect(orig, lay, len(payload)), true)
+				c.Count("input:load-batch-store-fault")
+			}
+		}
+		// a corrupted block at the end of the first batch and right behind it (thorough: also inside it, and the last)
+		for _, i := range corrupt {
+			for _, kind := range kindsFor() {
+				g := append([]byte(nil), payload...)
+				g[lay.secEnd[i]-1] ^= 0x01
+				c02xEmitLoad(c, r, kind, true, -1, g, VL{VT("corrupt"), orig, VN(uint64(i))}, true)
+				c.Count("input:load-batch-corrupt")
+			}
+		}
+	}
+}
+
+// c02xEdge: one fixed-shape CARv1 per run whose blocks sit on the edges the random archives rarely hit:
+// empty data under a hashing CID (v1 and v0), an identity CID with an empty digest, a one-byte block.
+// Every reader and every loader variant sees the intact archive, every proper prefix and every
+// single-byte corruption (3 masks) of digests and data.
+func c02xEdge(c *Ctx) {
+	r := c.R.Fork()
+	one := r.Bytes(1)
+	blks := []Blk{
+		{mkCid(1, 0x55, 0x12, -1, nil), nil},
+		{mkCid(1, pick(r, codecs), 0x00, -1, nil), nil},
+		{mkCid(0, 0x70, 0x12, -1, nil), nil},
+		{mkCid(1, 0x71, 0x13, -1, one), one},
+		{mkCid(1, 0x55, 0x12, 20, nil), nil},
+	}
+	// order varies with the seed
+	for i := len(blks) - 1; i > 0; i-- {
+		j := r.Intn(i + 1)
+		blks[i], blks[j] = blks[j], blks[i]
+	}
+	roots := genRoots(r, blks, false)
+	payload := refPayload(roots, blks)
+	hdrLen := len(refPayload(roots, nil))
+	lay := payloadLayout(nil, payload, blks, hdrLen)
+	orig := blksVal(blks)
+	o := defaultROpts
+	emit := func(kind uint64, f []byte, expect Val) {
+		hok, hdrs := scanTables(f)
+		in := VL{VN(kind), o.val(), VB(f), hok, hdrs, expect}
+		c.Emit("scan", in, runScanImpl(kind, o, f, r.Bool()), true)
+	}
+	boundary := map[int]bool{lay.hdrEnd: true}
+	for _, e := range lay.secEnd {
+		boundary[e] = true
+	}
+	for _, kind := range []uint64{0, 1, 2} {
+		for k := 0; k <= len(payload); k++ {
+			nb := VN(1)
+			if boundary[k] || k == len(payload) {
+				nb = VN(0)
+			}
+			emit(kind, payload[:k], VL{VT("trunc"), orig, nb})
+			c.Count("input:edge-prefix")
+		}
+		for i := range blks {
+			for pos := lay.digStart[i]; pos < lay.secEnd[i]; pos++ {
+				for _, mask := range []byte{0x01, 0x80, 0xff} {
+					g := append([]byte(nil), payload...)
+					g[pos] ^= mask
+					emit(kind, g, VL{VT("corrupt"), orig, VN(uint64(i))})
+					c.Count("input:edge-corrupt")
+				}
+			}
+		}
+	}
+	c02xLoaderCases(c, r, payload, lay, blks, orig, true)
 }
